@@ -18,7 +18,7 @@ elab "#audit_modules" : command => do
       | some idx =>
         let m := (env.header.moduleNames[idx.toNat]!).toString
         let last := match name with | .str _ s => s | _ => ""
-        if mods.contains m && !name.isInternal && !last.startsWith "eq_" && !last.startsWith "match_" && !last.startsWith "_" then
+        if mods.contains m && !name.isInternal && !last.startsWith "eq_" && !last.startsWith "match_" && !last.startsWith "_" && last != "injEq" && last != "inj" && last != "sizeOf_spec" && !last.startsWith "noConfusion" && !last.startsWith "ctorIdx" && !last.endsWith "_sizeOf_spec" then
           let axs ← liftCoreM (collectAxioms name)
           out := out.push s!"AXIOMS {m} {name} {axs.toList}"
       | none => pure ()
